@@ -4,6 +4,7 @@ import (
 	"bytes"
 	"encoding/json"
 	"fmt"
+	"io"
 	"regexp"
 	"strconv"
 	"strings"
@@ -25,6 +26,11 @@ type c15Case struct {
 	// ops[CloneFrom:CloneTo] are emitted into a Clone which is appended back (0,0 = everything directly)
 	CloneFrom int `json:"clone_from,omitempty"`
 	CloneTo   int `json:"clone_to,omitempty"`
+	// Short > 0 (no clone, no aliased data): the buffer is that many bytes too small; the calls that do not fit are
+	// refused (the caller recovers and goes on) and must leave no trace in the listings
+	Short int `json:"short,omitempty"`
+	// ListAt > 0: both listings are also produced before op ListAt (and thrown away); the program is continued afterwards
+	ListAt int `json:"list_at,omitempty"`
 }
 
 var reHexTok = regexp.MustCompile(`0x([0-9a-f]{2}),`)
@@ -193,10 +199,15 @@ func c15Check(c c15Case) error {
 	if !c.Tight {
 		capacity += 64
 	}
+	useClone := c.CloneTo > c.CloneFrom && c.CloneTo <= len(c.Ops)
+	if c.Short > 0 && !useClone {
+		if capacity = needOf(c.Ops) - c.Short; capacity < 1 {
+			capacity = 1
+		}
+	}
 	buf := make([]byte, capacity)
 	p := &emPair{em: asm.NewEmitter(buf, true), m: asmcat.NewModel(capacity, false, true), target: buf}
 	orig := p.em
-	useClone := c.CloneTo > c.CloneFrom && c.CloneTo <= len(c.Ops)
 	var detached *asm.Emitter
 	useDetached := func() {
 		if detached != nil {
@@ -232,6 +243,17 @@ func c15Check(c c15Case) error {
 		if useClone && i == c.CloneTo {
 			if err := join(); err != nil {
 				return err
+			}
+		}
+		if c.ListAt > 0 && i == c.ListAt {
+			// a look at the listing in the middle of the work: it must not change what the emitter accepts afterwards
+			if pe := rig.Safe(func() error {
+				if err := p.em.WriteTextTo(io.Discard); err != nil {
+					return err
+				}
+				return p.em.WriteHexTo(io.Discard)
+			}); pe != nil {
+				return fmt.Errorf("listing before op %d failed: %v", i, pe)
 			}
 		}
 		if err := p.step(i, o); err != nil {
@@ -300,11 +322,22 @@ func TestC15(t *testing.T) {
 						many = append(many, asmcat.Op{Kind: "comment", Text: fmt.Sprint("block ", i)}, asmcat.Op{Kind: "data", V: 33, Seed: uint32(i)})
 					}
 				}
+				// comments of 500 bytes to 9 KiB between runs of short lines (whatever buffering the writers do, the
+				// lines come out in the order they were issued)
+				var longComments []asmcat.Op
+				for i, n := range []int{120, 40, 100, 7, 130, 60} {
+					for k := 0; k < n; k++ {
+						longComments = append(longComments, nop)
+					}
+					longComments = append(longComments, asmcat.Op{Kind: "comment", Text: strings.Repeat(fmt.Sprintf("long comment %d. ", i), []int{36, 300, 40, 600, 33, 280}[i])})
+				}
+				longComments = append(longComments, nop)
 				for bi, ops := range [][]asmcat.Op{
 					{{Kind: "data", V: 4097, Seed: 1}, nop},
 					{nop, {Kind: "data", V: 65535, Seed: 2}, nop, {Kind: "data", V: 17, Seed: 3}, {Kind: "label", Label: "l0"}, nop},
 					{{Kind: "setbase", V: 0x7EFFF0}, {Kind: "data", V: 40, Seed: 4}, {Kind: "label", Label: "l0"}, nop, {Kind: "data", V: 70000, Seed: 5}, nop},
 					many,
+					longComments,
 				} {
 					c := c15Case{Ops: ops, Tight: bi%2 == 0}
 					r.CheckSweep("large", c, func() error { return c15Check(c) })
@@ -315,8 +348,11 @@ func TestC15(t *testing.T) {
 			r.Rapid("rapid", rig.Pick(25000, 100000), func(t *rapid.T) {
 				c := c15Case{Tight: rapid.IntRange(0, 3).Draw(t, "tight") == 0, Finalize: rapid.Bool().Draw(t, "finalize")}
 				c.Ops = asmcat.GenHistory(t, asmcat.GenOpts{MaxOps: rig.Pick(30, 80), Labels: true, Data: true, Comments: true, LongComments: true, SetBase: true, Assume: true})
+				if rapid.IntRange(0, 5).Draw(t, "short") == 0 {
+					c.Short = rapid.IntRange(1, 40).Draw(t, "short-by")
+				}
 				for i := range c.Ops {
-					if o := &c.Ops[i]; o.Kind == "data" && o.V >= 2 && rapid.IntRange(0, 3).Draw(t, "from-own-buffer") == 0 {
+					if o := &c.Ops[i]; c.Short == 0 && o.Kind == "data" && o.V >= 2 && rapid.IntRange(0, 3).Draw(t, "from-own-buffer") == 0 {
 						o.Alias = uint32(rapid.IntRange(1, int(o.V)-1).Draw(t, "alias-distance"))
 						ev.Class("data-block-emitted-from-an-overlapping-window-of-the-target-buffer")
 					}
@@ -324,6 +360,16 @@ func TestC15(t *testing.T) {
 				if len(c.Ops) > 1 && rapid.IntRange(0, 3).Draw(t, "via-clone") == 0 {
 					c.CloneFrom = rapid.IntRange(0, len(c.Ops)-1).Draw(t, "clone-from")
 					c.CloneTo = rapid.IntRange(c.CloneFrom+1, len(c.Ops)).Draw(t, "clone-to")
+				}
+				if c.CloneTo > 0 {
+					c.Short = 0
+				}
+				if len(c.Ops) > 1 && rapid.IntRange(0, 2).Draw(t, "list-in-the-middle") == 0 {
+					c.ListAt = rapid.IntRange(1, len(c.Ops)-1).Draw(t, "list-at")
+					ev.Class("listings-also-produced-in-the-middle-of-the-program")
+				}
+				if c.Short > 0 {
+					ev.Class("buffer-too-small-by-1-to-40-bytes:refused-calls-must-not-show-in-the-listings")
 				}
 				r.Check(t, "rapid", c, func() error { return c15Check(c) })
 				nt := false
